@@ -128,6 +128,13 @@ func matchMultiset(vals []float64, parts []lat.Part, scale float64) bool {
 
 // ---- Schur form ------------------------------------------------------------------------
 
+// discNonNegative: the discriminant (a-d)² + 4bc of the block [a b; c d] is >= 0 however the
+// expression is rounded (plain and with either product fused into the sum).
+func discNonNegative(a, b, c, d float64) bool {
+	x := a - d
+	return x*x+4*b*c >= 0 && math.FMA(x, x, 4*b*c) >= 0 && math.FMA(4*b, c, x*x) >= 0
+}
+
 // schurBlocks scans T and returns the real parts of its eigenvalues (2×2 blocks contribute
 // their mean twice), the index set of 2×2 blocks, and structural failures.
 func checkSchur(f *fails, A, T lat.Mat, U *lat.Mat, sp *lat.Spectrum, symmetricMode, graded bool) (has2x2 bool) {
@@ -151,22 +158,18 @@ func checkSchur(f *fails, A, T lat.Mat, U *lat.Mat, sp *lat.Spectrum, symmetricM
 			f.add("structure-quasi-triangular", "entry below the sub-diagonal %.3g (tol %.3g)", v, tol)
 		}
 	}
-	kmax := 1
-	if sp != nil {
-		kmax = sp.MaxMult()
-	}
 	var vals []float64
 	for i := 0; i < n; i++ {
 		if i+1 < n && math.Abs(T.At(i+1, i)) > tol {
 			has2x2 = true
 			a, b, c, d := T.At(i, i), T.At(i, i+1), T.At(i+1, i), T.At(i+1, i+1)
 			disc := (a-d)*(a-d) + 4*b*c
-			dt := 2 * tolMult(kmax, scale)
-			if graded {
-				dt = math.Inf(1)
-			}
-			if !symmetricMode && disc > dt*dt {
-				f.add("structure-real-2x2-block", "2x2 diagonal block at %d has real eigenvalues (discriminant %.3g) but sub-diagonal %.3g was not reduced", i, disc, c)
+			// a 2x2 diagonal block of a real Schur form stands for a complex-conjugate pair: its
+			// discriminant is negative. Strict: the block is exactly what the routine looked at
+			// when it decided not to reduce it (later steps do not touch it), so there is no
+			// rounding between its decision and this one; 0 is a double REAL eigenvalue.
+			if !symmetricMode && discNonNegative(a, b, c, d) {
+				f.add("structure-real-2x2-block", "2x2 diagonal block [%g %g; %g %g] at %d has real eigenvalues (discriminant %.3g >= 0) but its sub-diagonal entry was not reduced", a, b, c, d, i, disc)
 			}
 			if i+2 < n && math.Abs(T.At(i+2, i+1)) > tol {
 				f.add("structure-quasi-triangular", "two consecutive non-zero sub-diagonal entries at %d,%d", i, i+1)
@@ -202,7 +205,7 @@ func checkSchur(f *fails, A, T lat.Mat, U *lat.Mat, sp *lat.Spectrum, symmetricM
 // checkEigen: evals as returned (sorted by the routine), evecs columns (nil if not computed).
 // split2x2 tells whether the plain QR algorithm left a 2×2 block for this input (only used to
 // WEAKEN the eigenvector check on repeated roots that the routine treated as a complex pair).
-func checkEigen(f *fails, A lat.Mat, evals []float64, evecs *lat.Mat, sp *lat.Spectrum, graded bool, split2x2 func() bool, skipped *int) {
+func checkEigen(f *fails, A lat.Mat, evals []float64, evecs *lat.Mat, sp *lat.Spectrum, graded bool, split2x2 func() (cplx, real bool), skipped *int) {
 	n := A.R
 	scale := scaleOf(A)
 	if len(evals) != n {
@@ -286,9 +289,19 @@ func checkEigen(f *fails, A lat.Mat, evals []float64, evecs *lat.Mat, sp *lat.Sp
 			bad, what, msg = true, "eigenpair-residual", fmt.Sprintf("‖A·v−λ·v‖/‖v‖=%.3g for λ=%.9g (exact multiplicity %d, tol %.3g)", nr/nv, evals[j], k, tolMult(k, scale))
 		}
 		if bad {
-			if k >= 2 && split2x2 != nil && split2x2() {
-				*skipped++
-				continue
+			if split2x2 != nil {
+				cplx, real := split2x2()
+				if real {
+					// not the back-substitution: the QR algorithm handed over a "Schur form" with a
+					// 2x2 diagonal block whose eigenvalues are real, which eigensystem has to take
+					// for a complex pair
+					f.add("schur-form-real-2x2-block", "the QR algorithm leaves a 2x2 diagonal block with real eigenvalues for this input (not a real Schur form), eigensystem takes it for a complex pair: %s", msg)
+					return
+				}
+				if k >= 2 && cplx {
+					*skipped++
+					continue
+				}
 			}
 			f.add(what, "%s", msg)
 			return
